@@ -8,6 +8,19 @@ CLAIMS = {
  "C01": dict(technique="deviation-bounded exhaustive enumeration of (program x shooting configuration) states, each executed on the real rockit and compared row-for-row with a reference RK4/Euler/difference-equation transcription",
              text="Every OCP/configuration reachable by <=2 (quick) / <=3 (+4 on a core) deviations from a non-degenerate base is declared on the real library; every gap-closing row, the SingleShooting recursion, the integrator-grid states and discrete_system() are compared with an independent numpy transcription at generic points plus one excitation per decision coordinate.",
              design="DESIGN.md 3 (C01)"),
+
+ "C02": dict(technique="deviation-bounded exhaustive enumeration of DirectCollocation configurations and ODE/DAE programs on the real rockit, rows compared with defects from an independent collocation implementation; feasibility of the independent trajectory checked on the real rows",
+             text="Every configuration within <=2/<=3 deviations plus the full degree(1..5) x scheme x M x grid x {ODE,DAE} sub-product: collocation, algebraic and continuity rows equal the defects computed from own Legendre/Radau nodes and Lagrange basis; the reference's Newton-solved collocation trajectory is feasible for the real rows and each single-coordinate departure is infeasible exactly when the reference says so.",
+             design="DESIGN.md 3 (C02)"),
+ "C04": dict(technique="deviation-bounded exhaustive enumeration of constraint declarations x methods on the real rockit; canonical NLP rows matched as multisets against the placement rule of the statement",
+             text="Constraint form x grid option x include_first/last x offsets x second constraint x method/N/M/degree/grid/horizon at <=2/<=3 deviations plus the full constraint-dimension sub-product: every real row must be explained (dynamics, declared constraint instance, or a pure time-grid row), every expected instance must be present with bounds and sense, unplaceable declarations must raise.",
+             design="DESIGN.md 3 (C04)"),
+ "C05": dict(technique="deviation-bounded exhaustive enumeration of objective-term combinations x methods on the real rockit; NLP objective compared with an independent Mayer/sum/quadrature evaluation; public read-back paths compared with the NLP objective",
+             text="Term choices in three slots (16 term kinds) x method/intg/N/M/degree/scheme/grid/horizon at <=2/<=3 deviations plus every term x every scheme: opti.f equals the reference objective at all alphabet points; ocp.value(objective) and sol.value(objective) after a limited real solve equal the NLP objective.",
+             design="DESIGN.md 3 (C05)"),
+ "C06": dict(technique="exhaustive enumeration of the grid-class x option x N x M x horizon x method product (and ordered pairs of grid objects in one process) on the real rockit; sampled times compared with independent partitions; the grid's own NLP rows analysed as an enumerated affine system (null space, boundary lattice)",
+             text="Full product of 9 grid classes x 6 option sets x N x M x horizon kinds x 3 methods: all sampled time vectors, value(T,t0,tf), DT and DT_control equal independently computed partitions; for localized/free grids the real time-only rows admit exactly the declared partition family and enforce min/max exactly on a boundary lattice.",
+             design="DESIGN.md 3 (C06)"),
 }
 NOTE = "Trusted: CasADi Function evaluation and Opti bookkeeping (x,p,f,g,lbg,ubg,initial), numpy/scipy, the reference model (written from the property statements, cross-checked against textbook closed forms). Numeric quantifiers are closed by a fixed generic-point alphabet (a stated bound), configuration quantifiers by the stated deviation/depth bound."
 
